@@ -39,3 +39,11 @@ def dedup(cases):
             seen.add(c["id"])
             out.append(c)
     return out
+
+
+def run_family(vlib, family, work, r=None, fresh=False, timeout=900):
+    """TLC on spec/LangFam.tla for one family -> replayer cases"""
+    res = vlib.run_tlc("LangFam", f"MC_LangFam_{family}.cfg", work, workers=8, timeout=timeout)
+    if r is not None:
+        r.add_tlc(res)
+    return dedup([to_case(c, "F" + family[:2], fresh=fresh, tag="fam:" + family) for c in res["cases"]])
